@@ -263,7 +263,7 @@ impl<T: UciTx, H: Heuristic, M: MoveOrder> Search<T, H, M> {
             let aborted = self.flags.stop_as_soon_as_possible || current_best_move.mv.is_none();
             let stop = aborted || too_little_time;
 
-            if !stop {
+            if !aborted {
                 let bb_pv = current_best_move.calculate_principal_variation();
                 self.state.principal_variation = Some(bb_pv.clone());
                 uci_pv = Some(bb_pv.into_iter().map(move_into_uci_move).collect::<Vec<_>>());
